@@ -1,10 +1,10 @@
 package checks
 
 import (
-	"sort"
 	"encoding/json"
 	"fmt"
 	"math/rand"
+	"sort"
 	"strings"
 
 	"github.com/jsightapi/jsight-schema-core/notations/jschema"
